@@ -37,8 +37,11 @@ def main():
         print("CHECKER-BROKEN: %s crashed" % a.prop)
         return 3
     if a.update_baseline:
-        report.update_baseline(a.prop, chk.status)
-        print("baseline updated for", a.prop)
+        if rc == 3:
+            print("baseline NOT updated for %s: the checker is broken on this run (a harness crashed or generated nothing)" % a.prop)
+        else:
+            report.update_baseline(a.prop, chk.status)
+            print("baseline updated for", a.prop)
     return rc
 
 
